@@ -21,6 +21,7 @@ func checkC12(c *Ctx) {
 	r.Rule("R12.7", "the testing-mode atom of R12.1 is what the property means by it: the package variable inTesting is initialised by is.InTesting() itself and never reassigned")
 	r.Rule("R12.5", "no foreign level becomes terminating: in every function mapping a log/slog level to a Level, Panic/Fatal are returned only under equality with the explicit LevelPanic/LevelFatal constants, and the lookup table has no terminating value")
 	r.Rule("R02.9", "(shared with C02) a nil context never has a method called on it: for every method call on a context.Context value on the print path, every origin of the receiver (through parameters over all static call sites, and joins) is a value made by package context or the raw parameter on the not-nil side of a test of that parameter")
+	r.Rule("R12.8", "terminating leaves the destinations as they are: the terminating function and its private helpers outside the record printer close no destination and write no writer-set state (a recovered Panic is followed by more records)")
 	r.Assume("inTesting (is.InTesting()) identifies a go test binary; the flags word is read at the time of the call")
 	for _, tags := range c.Configs([]string{""}, []string{"", "verbose", "hint", "verbose,hint"}) {
 		p := c.Prog(tags)
@@ -37,6 +38,7 @@ func checkC12(c *Ctx) {
 		wrapperForwarding(c, p, "R12.2")
 		c12Mapping(c, p, m)
 		noTerminationBypass(c, p, m)
+		terminationKeepsWriters(c, p, m)
 		nilContextSafe(c, p, m, "R02.9")
 		testingPredicate(c, p)
 	}
